@@ -197,6 +197,11 @@ class Norm:
             args = [self.n(x) for x in e[2:]]
             op = call_op(n)
             if op in ('Mul', 'Add', 'Sub', 'Div') and len(args) == 2: return self.op(op, args[0], args[1])
+            if op == 'min' and len(args) == 2:
+                # a.saturating_sub(b).min(c) with a constant c >= 0 is (a - b).clamp(0, c)
+                for p_, q_ in ((args[0], args[1]), (args[1], args[0])):
+                    if p_[0] == 'f' and p_[1] == 'satsub' and len(p_) == 4 and q_[0] == 'c' and isinstance(q_[1], int) and not isinstance(q_[1], bool) and q_[1] >= 0:
+                        return ('f', 'clamp', mk_sub(p_[2], p_[3]), ('c', 0), q_)
             if op in ('min', 'max') and len(args) == 2:
                 # x.max(lo).min(hi) / x.min(hi).max(lo) with constant lo <= hi is x.clamp(lo, hi)
                 other = 'max' if op == 'min' else 'min'
